@@ -22,7 +22,9 @@ BOUNDS = {
 }
 OUTSIDE = ["AutoMod (jax absent), plotting / IO modules (no sensitivities)", "sizes beyond the grid",
            "OverhangFilter with >= 3 layers and generic exponents", "non-differentiable points (ties, |z|=0)",
-           "EigenSolve: dense n=2 only (matrix defined from free eigen-data; sparse ARPACK path and n>2 not covered)",
+           "EigenSolve: dense n=2 only (matrix defined from free eigen-data; sparse ARPACK path and n>2 not covered); complex "
+           "Hermitian pencils only through two `*-concrete-fd` regression items (real LAPACK, fixed values, central differences: "
+           "evidence kind `concrete-regression`, not a solver verdict)",
            "IEEE rounding"]
 ASSUMPTIONS = ["float64 arithmetic modelled as exact real arithmetic",
                "inner linear solver of LinSolve/SystemOfEquations/StaticCondensation is a contract oracle (C05 covers solvers)",
@@ -32,7 +34,7 @@ ITEM_TIMEOUT = {"quick": 240, "thorough": 900}
 
 
 def VIEWS_LAYOUT_ITEMS(it, tier):
-    return True
+    return not it.get("concrete_fd")
 
 
 def items(tier):
@@ -42,7 +44,32 @@ def items(tier):
     return out
 
 
+def sc_concrete_fd(V, P, cfg):
+    """Concrete regression items (NOT a solver verdict; evidence kind `concrete-regression`): the adjoint obligation
+    sum_e Re(g_e dx_e/ds) == d/ds sum_j Re(w_j y_j) evaluated by Richardson-extrapolated central differences on the real
+    library at fixed inputs - for module classes whose symbolic contracts the solver does not decide in time."""
+    if V.symbolic:
+        from symx import npshim
+        npshim.uninstall()
+    try:
+        from .common import GenericEnv
+        worst, bad = 0.0, []
+        for s_ in cfg["symbols"]:
+            r = replay(dict(cfg, concrete_fd=False), "adj:d/d" + s_, GenericEnv(3), None)
+            det = r.get("detail") if isinstance(r.get("detail"), dict) else {}
+            if r.get("reproduced") is not False:
+                bad.append((s_, det.get("analytic"), det.get("numeric")))
+    finally:
+        if V.symbolic:
+            npshim.install()
+    if P is not None:
+        P.holds("concrete-fd:adjoint-matches-central-differences", not bad, kind="concrete-regression:adjoint-fd")
+    return dict(nbad=float(len(bad)), _bad=bad) if P is None else dict(nbad=float(len(bad)))
+
+
 def scenario(V, P, cfg):
+    if cfg.get("concrete_fd"):
+        return sc_concrete_fd(V, P, cfg)
     setup = BUILDERS[cfg["mod"]](V, cfg)
     m = setup.module
     in_entries = [np.array(dense_entries(s.state), dtype=object, copy=True) if V.symbolic else
@@ -118,6 +145,9 @@ def replay(cfg, label, env, case):
     """Numeric check of the violated adjoint obligation on the real library."""
     import warnings
     warnings.simplefilter("ignore")
+    if cfg.get("concrete_fd"):
+        obs = sc_concrete_fd(Vals(env=env), None, cfg)
+        return dict(reproduced=bool(obs["nbad"] > 0), detail=dict(mismatching_symbols=[list(map(str, b)) for b in obs["_bad"]]))
     if label.startswith("exception:"):
         try:
             scenario(Vals(env=env), None, cfg)
